@@ -40,3 +40,36 @@ Theorem C02_gas_identical_with_additions : forall W M HT can_transfer transfer b
   forall fuel, PR W M HT can_transfer transfer balance_of exists_acct create_account code_of collides get_nonce set_nonce acl_add set_code touch is_homestead is_eip158 is_berlin is_london max_code_size is_precompile precompile local_step init_machine keccak debug jpA alA aspA jpR alR bR aspR t0 fuel.
 Proof. exact additions_invisible. Qed.
 Print Assumptions C02_gas_identical_with_additions.
+
+From Verif Require Import Model.CallGas Proofs.CallGas_proofs.
+Open Scope N_scope.
+(** THE GAS A FRAME IS GIVEN.  What a CALL-family instruction forwards (vm/gas.go callGas) is, from EIP-150 on, the smaller of
+    the request and all but one 64th of what the frame has left after the instruction's own costs — for every 256-bit
+    request, also one that does not fit 64 bits; before EIP-150 it is the request itself ... *)
+Theorem C02_forwarded_gas_is_min_of_request_and_cap : forall available base requested,
+  base <= available -> available < two64 ->
+  call_gas true available base requested = Ok (N.min requested ((available - base) - (available - base) / 64)).
+Proof. exact call_gas_eip150. Qed.
+Print Assumptions C02_forwarded_gas_is_min_of_request_and_cap.
+
+Theorem C02_forwarding_leaves_a_64th : forall available base requested g,
+  base <= available -> available < two64 -> call_gas true available base requested = Ok g ->
+  g <= available - base /\ (available - base) / 64 <= (available - base) - g.
+Proof. exact call_gas_leaves_a_64th. Qed.
+Print Assumptions C02_forwarding_leaves_a_64th.
+
+Theorem C02_forwarded_gas_before_eip150 : forall available base requested,
+  call_gas false available base requested = if requested <? two64 then Ok requested else Err "gas uint64 overflow".
+Proof. exact call_gas_legacy. Qed.
+Print Assumptions C02_forwarded_gas_before_eip150.
+
+(** ... and the callee frame starts with exactly that, plus the 2300 stipend only for a value-bearing CALL / CALLCODE *)
+Theorem C02_callee_gas_is_forwarded_plus_stipend : forall kind value_nonzero g,
+  callee_gas kind value_nonzero g = g \/ (callee_gas kind value_nonzero g = g + 2300 /\ value_nonzero = true /\ (kind = 0 \/ kind = 1)).
+Proof. exact callee_gas_stipend. Qed.
+Print Assumptions C02_callee_gas_is_forwarded_plus_stipend.
+
+Example C02_call_gas_example :
+  call_gas true 100000 700 (two64 + 5) = Ok 97749 /\ call_gas true 100000 700 5000 = Ok 5000 /\
+  call_gas false 100000 700 5000000 = Ok 5000000 /\ callee_gas 0 true 5000 = 7300 /\ callee_gas 2 true 5000 = 5000.
+Proof. exact ex_call_gas. Qed.
